@@ -49,3 +49,61 @@ class _C19(Spec):
 
 
 register(_C19())
+
+
+import struct
+
+
+def _bits(x):
+    return struct.unpack("<Q", struct.pack("<d", x))[0]
+
+
+class _C18(Spec):
+    pid = "C18"
+    lean_module = "Starcal.Props.C18"
+    expected = "total seconds = 3600h+60m+s; seconds -> h:m:s -> seconds and h:m:s -> fractional hours -> h:m:s are identities on valid times; any fractional hour in [0,24) converts to a time within one second"
+    rule = ("line protocol `tod`: all 86 400 valid times of day for `total` (GetTotalSeconds + GetHmsBySeconds back), `rt` (GetFloatHour -> FloatHourToHMS, the real "
+            "float code against the exact-rational model) and `secs`; `fh <bits>` for k/3600 and k/3600 +- 1e-9 for every k and seeded random doubles in [0,24): the double's "
+            "exact rational value goes through the rational model; where the exact value of fh*3600+0.5 is within 1e-6 of an integer either neighbouring second is accepted. "
+            "The one-second bound is evaluated exactly (math/big) on the real result.")
+    assumptions = ["IEEE-754 double arithmetic inside GetFloatHour / FloatHourToHMS is not modelled: the model is exact rational arithmetic (Lean has no kernel semantics for Float); "
+                   "the round-trip clause has a finite domain and is compared exhaustively with the real float code on every run; the any-float clause is proved for rationals and "
+                   "sampled for doubles (partial)"]
+
+    def compare_default(self, req, impl, model):
+        return impl in [m.strip() for m in model.split("|")]
+
+    def streams(self, tier, rng):
+        reqs = []
+        for h in range(24):
+            for m in range(60):
+                for s in range(60):
+                    reqs.append("tod total %d %d %d" % (h, m, s))
+                    reqs.append("tod rt %d %d %d" % (h, m, s))
+        reqs += ["tod secs %d" % s for s in range(86400)]
+        # out-of-range field values: the functions are total, the model follows the uint8 arithmetic
+        for _ in range(3000):
+            reqs.append("tod total %d %d %d" % (rng.randrange(256), rng.randrange(256), rng.randrange(256)))
+        sts = [Stream("tod-exhaustive", reqs)]
+        freqs = []
+        step = 1 if tier == "thorough" else 7
+        for k in range(0, 86400, step):
+            for d in (0.0, 1e-9, -1e-9):
+                x = k / 3600.0 + d
+                if 0 <= x < 24:
+                    freqs.append("tod fh %d" % _bits(x))
+        n = 100000 if tier == "quick" else 1000000
+        for _ in range(n):
+            x = rng.random() * 24
+            if rng.random() < 0.2:
+                x = (rng.randrange(86400) + rng.choice([0.5, 0.49999, 0.50001, 0.98, 0.99, 0.01])) / 3600.0
+            if 0 <= x < 24:
+                freqs.append("tod fh %d" % _bits(x))
+        sts.append(Stream("tod-floats", freqs, compare=self.compare_default))
+        return sts
+
+    def exhaustive(self, tier):
+        return True
+
+
+register(_C18())
